@@ -263,7 +263,7 @@ func runC20(a *Analyzer, r *Results) {
 						srcs = append(srcs, fld+" <- "+prettyKeyShort(k))
 					}
 					sortStrings(srcs)
-					r.Check("W5.source", props("C20", "C09", "C11"), "all fields that a builder literal copies from a reader come from one and the same reader value (no field borrowed from a sibling structure)", shortName(f)+"|"+nt.Obj().Name()+"@"+a.P.InstrPos(al), a.P.InstrPos(al), len(recvTerms) == 1, "fields read from different readers: "+strings.Join(srcs, " ; "), "D")
+					r.Check("W5.source", props("C20", "C09", "C11", "C05", "C07"), "all fields that a builder literal copies from a reader come from one and the same reader value (no field borrowed from a sibling structure)", shortName(f)+"|"+nt.Obj().Name()+"@"+a.P.InstrPos(al), a.P.InstrPos(al), len(recvTerms) == 1, "fields read from different readers: "+strings.Join(srcs, " ; "), "D")
 					if len(recvTerms) == 1 {
 						var child *Term
 						var childRecv ssa.Value
@@ -355,12 +355,18 @@ func runC20(a *Analyzer, r *Results) {
 		fn := a.P.Func(id)
 		m := Root(fn.Params[0].Name())
 		for _, mk := range msgKinds {
-			rets, und := a.Returns(id, nil, Truth(T("istype", mk.goType, m)))
+			rets, und := a.ReturnsSplit(id, nil, Truth(T("istype", mk.goType, m)))
 			r.Undecided = append(r.Undecided, und...)
 			n := 0
 			for _, e := range rets {
 				n++
 				got := e.Args[0]
+				var evH *Eval
+				if got.Contains(func(t *Term) bool { return t.Op == "call" && a.calleeOf(t) != nil }) {
+					// built through a helper: use what the helper is known to return on this path
+					evH = a.NewEval(e, r)
+					got = evH.Arg(0)
+				}
 				blockWant := tNil
 				if mk.block {
 					blockWant = Field(m, "block")
@@ -370,6 +376,20 @@ func runC20(a *Analyzer, r *Results) {
 				why := ""
 				if got.Key() != want.Key() {
 					why = diffTerms(got, want)
+					if evH != nil && got.Op == "struct" {
+						same := true
+						for _, fn := range []string{"Content", "Block"} {
+							if !evH.Same(Field(got, fn), Field(want, fn)) {
+								same = false
+							}
+						}
+						if same {
+							why = ""
+						}
+					}
+				}
+				if why == "" {
+					got = want
 				}
 				r.Check("W2.encode", pr, "CreateConsensusRawMessage maps each message type to its own union tag, forwards the content as <X>BuilderFromRaw(content.Raw()) (signature-preserving) and carries the block exactly for PREPREPARE / VIEW_CHANGE / NEW_VIEW", mk.goType, e.Pos(a), got.Key() == want.Key(), why, "D")
 			}
